@@ -233,6 +233,9 @@ func (h *Hosts) AdvanceTo(now time.Duration) ([]Notif, int) {
 	return out, ticks
 }
 
+// Sorted returns the hosts in address order.
+func (h *Hosts) Sorted() []*Host { return h.sorted() }
+
 func (h *Hosts) sorted() []*Host {
 	var l []*Host
 	for _, x := range h.ByIP {
